@@ -117,6 +117,168 @@ static void exec_c02(const void *k, res_t *r, const runcfg_t *cfg) {
     if (X.faulted) res_label(r, "foreign-store-fault");
 }
 
+/* ---------- shared helpers for C03 C04 C05 C08 ---------- */
+static int dest_usable(const gcase_t *c, const row_t *row) {
+    return !c->dest_null && c->dmax > 0 && c->dmax <= row->dmax_max && c->dmax * (size_t)row->du <= c->dtrue;
+}
+/* 1 failure (constraint violation reported), 0 success or plain status */
+static int call_failed(const row_t *row, const gexec_t *x) {
+    switch (row->ret_kind) {
+    case RK_ERRNO: return !(x->a.ret == EOK || x->a.ret == ESNOTFND || x->a.ret == ESNODIFF);
+    case RK_PTR_ERRP: return x->a.errp ? x->errp_val != EOK : x->a.ret == 0;
+    default: return (x->h_str + x->h_mem) > 0;
+    }
+}
+static long call_code(const row_t *row, const gexec_t *x) {
+    if (row->ret_kind == RK_ERRNO) return x->a.ret;
+    if (row->ret_kind == RK_PTR_ERRP) return x->a.errp ? x->errp_val : -1;
+    return x->h_code;
+}
+static const char *codename(long c) {
+    static char buf[24];
+    switch (c) {
+    case 0: return "EOK"; case ESNULLP: return "ESNULLP"; case ESZEROL: return "ESZEROL"; case ESLEMIN: return "ESLEMIN";
+    case ESLEMAX: return "ESLEMAX"; case ESOVRLP: return "ESOVRLP"; case ESEMPTY: return "ESEMPTY"; case ESNOSPC: return "ESNOSPC";
+    case ESUNTERM: return "ESUNTERM"; case ESNODIFF: return "ESNODIFF"; case ESNOTFND: return "ESNOTFND"; case ESLEWRNG: return "ESLEWRNG";
+    case EOVERFLOW: return "EOVERFLOW"; case -1: return "-1";
+    default: snprintf(buf, sizeof buf, "code%ld", c); return buf;
+    }
+}
+static long first_nul(const unsigned char *p, int w, size_t n) {
+    size_t i;
+    for (i = 0; i < n; i++) if (gc_elem(p, w, i) == 0) return (long)i;
+    return -1;
+}
+
+/* ---------- C03: dest is always terminated ---------- */
+static int gen_c03(cs_t *cs, void *k, const runcfg_t *cfg) {
+    gcase_t *c = k; int ok = gc_gen(cs, c, cfg, 3); c->guard = G_NA;
+    c->dest_null = 0; if (c->dkind == DK_OVERMAX) c->dkind = DK_EXACT, c->dmax = c->dtrue / (size_t)g_rows[c->row].du;
+    return ok;
+}
+static void exec_c03(const void *k, res_t *r, const runcfg_t *cfg) {
+    const gcase_t *c = k;
+    const row_t *row = &g_rows[c->row];
+    size_t n = c->dmax * (size_t)row->du / (size_t)row->w;
+    (void)cfg;
+    gc_run(c, &X);
+    r->hash = gc_hash(c);
+    common_labels(c, r);
+    if (X.faulted) { res_label(r, "foreign-fault"); if (X.sig != SIGSEGV) r->fragile = 1; return; }
+    if (!dest_usable(c, row)) { res_label(r, "dest-unusable"); return; }
+    r->nontrivial = 1;
+    res_label(r, call_failed(row, &X) ? "ret:failure" : "ret:success");
+    /* documented exemption: zero-length request defined as a no-op */
+    if ((row->fl & F_ZEROLEN_NOOP) && c->slen == 0) { res_label(r, "exempt:zero-length-noop"); return; }
+    /* in-place fill rows (strset_s family, strnterminate_s excepted) document "dest shall be null-terminated" and
+       define nothing for an unterminated input: not judged (a transform of a non-string is not a string) */
+    if ((row->fl & F_DIN) && !(row->fl & F_DIN_TERM) && row->ret_kind == RK_ERRNO && first_nul(X.dest_before, row->w, n) < 0) {
+        res_label(r, "exempt:undefined-unterminated-input");
+        r->nontrivial = 0;
+        return;
+    }
+    if (first_nul(X.dest, row->w, n) < 0) {
+        RES_VIOL(r, "C03:%s:unterminated-after-%s:%s", row->name, codename(call_code(row, &X)), relclass(c));
+        RES_DETAIL(r, "no NUL within the first %zu elements of dest after return code %s", n, codename(call_code(row, &X)));
+    }
+}
+
+/* ---------- C04: a failed call leaves no partial result ---------- */
+static int gen_c04(cs_t *cs, void *k, const runcfg_t *cfg) {
+    gcase_t *c = k; int ok = gc_gen(cs, c, cfg, 4); c->guard = G_NA;
+    c->dest_null = 0; if (c->dkind == DK_OVERMAX) c->dkind = DK_EXACT, c->dmax = c->dtrue / (size_t)g_rows[c->row].du;
+    return ok;
+}
+static void exec_c04(const void *k, res_t *r, const runcfg_t *cfg) {
+    const gcase_t *c = k;
+    const row_t *row = &g_rows[c->row];
+    size_t n = c->dmax * (size_t)row->du / (size_t)row->w, i;
+    long code;
+    int noslack = cfg->libcfg && strstr(cfg->libcfg, "noslack") != NULL;
+    gc_run(c, &X);
+    r->hash = gc_hash(c);
+    common_labels(c, r);
+    if (X.faulted) { res_label(r, "foreign-fault"); if (X.sig != SIGSEGV) r->fragile = 1; return; }
+    if (!dest_usable(c, row)) { res_label(r, "dest-unusable"); return; }
+    if (!call_failed(row, &X)) { res_label(r, "ret:success"); return; }
+    code = call_code(row, &X);
+    r->nontrivial = 1;
+    res_label(r, "ret:failure");
+    if ((row->fl & F_ZEROLEN_NOOP) && c->slen == 0) return;
+    /* a source that does not overlap dest is never modified */
+    if ((row->fl & F_SRC) && X.src && memcmp(X.src, X.src_before, c->strue) != 0) {
+        RES_VIOL(r, "C04:%s:source-modified-on-%s:%s", row->name, codename(code), relclass(c));
+        RES_DETAIL(r, "source changed by a failed call%s", "");
+        return;
+    }
+    if (n == 0) return;
+    if (gc_elem(X.dest, row->w, 0) != 0) {
+        RES_VIOL(r, "C04:%s:dest0-nonzero-after-%s:%s", row->name, codename(code), relclass(c));
+        RES_DETAIL(r, "dest[0]=0x%zx after failure %s", gc_elem(X.dest, row->w, 0), codename(code));
+        return;
+    }
+    if (noslack && !(row->fl & F_MEM)) {
+        /* documented: only the first element is cleared; remnants are counted, not judged */
+        for (i = 1; i < n; i++) if (gc_elem(X.dest, row->w, i) != 0 && gc_elem(X.dest, row->w, i) != gc_elem(X.dest_before, row->w, i)) { res_label(r, "noslack-remnant"); break; }
+        return;
+    }
+    for (i = 0; i < n; i++) {
+        size_t v = gc_elem(X.dest, row->w, i);
+        if (v != 0 && v != gc_elem(X.dest_before, row->w, i)) {
+            RES_VIOL(r, "C04:%s:partial-result-after-%s:%s", row->name, codename(code), relclass(c));
+            RES_DETAIL(r, "dest[%zu]=0x%zx (prefill 0x%zx) visible after failure %s", i, v, gc_elem(X.dest_before, row->w, i), codename(code));
+            return;
+        }
+    }
+    if (code == ESNOSPC || code == ESOVRLP || code == ESUNTERM || (code == ESNULLP && c->src_null)) {
+        for (i = 0; i < n; i++)
+            if (gc_elem(X.dest, row->w, i) != 0) {
+                RES_VIOL(r, "C04:%s:not-all-cleared-after-%s:%s", row->name, codename(code), relclass(c));
+                RES_DETAIL(r, "dest[%zu]=0x%zx not zeroed after %s (dmax %zu)", i, gc_elem(X.dest, row->w, i), codename(code), c->dmax);
+                return;
+            }
+    }
+}
+
+/* ---------- C08: nothing stale behind the terminator ---------- */
+static int gen_c08(cs_t *cs, void *k, const runcfg_t *cfg) {
+    gcase_t *c = k; int ok = gc_gen(cs, c, cfg, 8); c->guard = G_NA;
+    c->dest_null = 0; c->src_null = 0; if (c->dkind == DK_OVERMAX) c->dkind = DK_EXACT, c->dmax = c->dtrue / (size_t)g_rows[c->row].du;
+    return ok;
+}
+static void exec_c08(const void *k, res_t *r, const runcfg_t *cfg) {
+    const gcase_t *c = k;
+    const row_t *row = &g_rows[c->row];
+    size_t n = c->dmax * (size_t)row->du / (size_t)row->w, i;
+    long L;
+    int noslack = cfg->libcfg && strstr(cfg->libcfg, "noslack") != NULL;
+    gc_run(c, &X);
+    r->hash = gc_hash(c);
+    common_labels(c, r);
+    if (X.faulted) { res_label(r, "foreign-fault"); if (X.sig != SIGSEGV) r->fragile = 1; return; }
+    if (!dest_usable(c, row)) { res_label(r, "dest-unusable"); return; }
+    if (call_failed(row, &X)) { res_label(r, "ret:failure"); return; }
+    res_label(r, "ret:success");
+    if ((row->fl & F_ZEROLEN_NOOP) && c->slen == 0) return;
+    if ((row->fl & F_DIN) && !(row->fl & F_DIN_TERM) && first_nul(X.dest_before, row->w, n) < 0) { res_label(r, "exempt:undefined-unterminated-input"); return; }
+    if ((row->fl & F_VAL) && row->fam == FAM_FILL && c->val == 0) { res_label(r, "exempt:fill-value-0"); return; }
+    L = first_nul(X.dest, row->w, n);
+    if (L < 0) { res_label(r, "foreign-unterminated(C03)"); return; }
+    if (!(row->fl & F_SRCSTR) && (row->fl & F_SLEN) && (row->fl & F_DSTR)) {
+        /* strcpyfldout_s: copies slen characters, embedded NULs are data; the result ends at slen */
+        L = (long)(c->slen < n ? c->slen : n - 1);
+    }
+    if ((size_t)L + 1 < n) r->nontrivial = 1;
+    res_label(r, n > 0x20 ? "dmax>0x20" : "dmax<=0x20");
+    if (noslack) return; /* terminator present: verified by L >= 0 */
+    for (i = (size_t)L; i < n; i++)
+        if (gc_elem(X.dest, row->w, i) != 0) {
+            RES_VIOL(r, "C08:%s:stale-slack:%s%s", row->name, relclass(c), n > 0x20 ? ":dmax>0x20" : "");
+            RES_DETAIL(r, "dest[%zu]=0x%zx behind the terminator at %ld (dmax %zu)", i, gc_elem(X.dest, row->w, i), L, n);
+            return;
+        }
+}
+
 static void g_init(const runcfg_t *cfg) { (void)cfg; gh_install(); }
 
 const module_t mod_C01 = {"C01", sizeof(gcase_t), 1, {3000000, 40000000}, g_init, gen_c01, exec_c01, gc_describe,
@@ -125,3 +287,13 @@ const module_t mod_C01 = {"C01", sizeof(gcase_t), 1, {3000000, 40000000}, g_init
 const module_t mod_C02 = {"C02", sizeof(gcase_t), 1, {3000000, 40000000}, g_init, gen_c02, exec_c02, gc_describe,
                           "generic rows: PROT_NONE guard flush after/before every declared extent; non-trivial = scanned operand non-NULL, "
                           "declared size >= 1, sizes within limits; distinct by decoded arguments minus content seed"};
+
+const module_t mod_C03 = {"C03", sizeof(gcase_t), 1, {2000000, 20000000}, g_init, gen_c03, exec_c03, gc_describe,
+                          "string-producing generic rows; dest prefilled with non-NUL garbage (or unterminated/terminated prior contents for in/out rows); "
+                          "non-trivial = dest usable (non-NULL, 0<dmax<=RSIZE limit, within the object); distinct by decoded arguments minus content seed"};
+const module_t mod_C04 = {"C04", sizeof(gcase_t), 1, {2000000, 20000000}, g_init, gen_c04, exec_c04, gc_describe,
+                          "destination-writing generic rows documented to null dest on violation; dest prefilled with position-coded values 0x81..0xBD, sources from a disjoint alphabet; "
+                          "non-trivial = the call reported failure with a usable dest; distinct by decoded arguments minus content seed"};
+const module_t mod_C08 = {"C08", sizeof(gcase_t), 1, {2000000, 20000000}, g_init, gen_c08, exec_c08, gc_describe,
+                          "generic rows documented to null the slack; dest dirty (non-zero everywhere / garbage behind an input terminator); "
+                          "non-trivial = success with at least one slack element behind the terminator; distinct by decoded arguments minus content seed"};
